@@ -93,9 +93,9 @@ def _bisect_name(mod, node):
   return None
 
 
-def _linear(e, idx, lenexprs):
-  """(a, b, c) with e == a*index + b*len + c, or None."""
-  if isinstance(e, ast.Name) and e.id == idx:
+def _linear(e, is_idx, lenexprs):
+  """(a, b, c) with e == a*index + b*len + c, or None. is_idx(expr) recognises the index."""
+  if is_idx(e):
     return (1, 0, 0)
   c = _const_int(e)
   if c is not None:
@@ -103,15 +103,41 @@ def _linear(e, idx, lenexprs):
   if isinstance(e, ast.Call) and text(e) in lenexprs:
     return (0, 1, 0)
   if isinstance(e, ast.BinOp) and isinstance(e.op, (ast.Add, ast.Sub)):
-    l, r = _linear(e.left, idx, lenexprs), _linear(e.right, idx, lenexprs)
+    l, r = _linear(e.left, is_idx, lenexprs), _linear(e.right, is_idx, lenexprs)
     if l is None or r is None:
       return None
     s = 1 if isinstance(e.op, ast.Add) else -1
     return tuple(x + s * y for x, y in zip(l, r))
   if isinstance(e, ast.UnaryOp) and isinstance(e.op, ast.USub):
-    v = _linear(e.operand, idx, lenexprs)
+    v = _linear(e.operand, is_idx, lenexprs)
     return tuple(-x for x in v) if v else None
   return None
+
+
+def _xname(fn, e):
+  return fn.name(e) or text(e)
+
+
+def _inl(flow, e):
+  """Text-comparable copy of e with single-assignment locals replaced by their values."""
+  return flow.du.inline(e)
+
+
+def _returned(fn, flow):
+  """[(Case, value with locals inlined)] for every way the function returns a value."""
+  out = []
+  for case in H.return_cases(fn.node):
+    if case.value is None:
+      continue
+    out.append((case, _inl(flow, case.value)))
+  return out
+
+
+def _single_call_return(fn, flow, what):
+  rs = _returned(fn, flow)
+  if len(rs) != 1 or not isinstance(rs[0][1], ast.Call):
+    raise AnalysisError("%s: expected a single returned call" % what)
+  return rs[0]
 
 
 def r1_search_parameters(run, w):
@@ -121,6 +147,7 @@ def r1_search_parameters(run, w):
   mod = w.repo.module("records")
   bf = w.fn("records.RecordSet._bisect_find")
   bi = w.fn("records.RecordSet._bisect_index")
+  bff, bif = H.Flow(bf), H.Flow(bi)
   # --- helpers forward in role
   ps = bf.fi.params()
   if len(ps) != 5:
@@ -130,39 +157,36 @@ def r1_search_parameters(run, w):
   ic = _single(inner, "_bisect_find: call of _bisect_index")
   b = H.bind_args(ic, bi.fi)
   ips = bi.fi.params()
-  ok = [text(b.get(ips[1])), text(b.get(ips[2])), text(b.get(ips[3])) if ips[3] in b else None] \
-      == [p_func, p_row, p_vals]
-  ivar = [s.targets[0].id for s in walk_no_nested(bf.node) if isinstance(s, ast.Assign) and
-          s.value is ic and isinstance(s.targets[0], ast.Name)]
-  rets = H.returns_of(bf.node)
-  ok_ret = len(rets) == 1 and isinstance(rets[0].value, ast.Call) and \
-      text(rets[0].value.func) == "self._at" and len(rets[0].value.args) == 1 and bool(ivar)
+  if len(ips) != 4:
+    raise AnalysisError("_bisect_index: parameter list changed")
+  ok = [text(b[x]) if x in b else None for x in ips[1:4]] == [p_func, p_row, p_vals]
+  rs = _returned(bf, bff)
+  ok_ret = len(rs) == 1 and isinstance(rs[0][1], ast.Call) and \
+      _xname(bf, rs[0][1].func) == "self._at" and len(rs[0][1].args) == 1
   if ok_ret:
-    e = rets[0].value.args[0]
+    e = rs[0][1].args[0]
     ok_ret = isinstance(e, ast.BinOp) and isinstance(e.op, ast.Add) and \
-        {text(e.left), text(e.right)} == {ivar[0], p_shift}
+        {text(e.left), text(e.right)} == {text(_inl(bff, ic)), p_shift}
   run.ob(R1, bf.qualname, "i = self._bisect_index(%s, %s, search_values=%s); return self._at(i + %s)"
          % (p_func, p_row, p_vals, p_shift), "the helper bisects with the function, row id and "
          "values it was given and returns the record `shift` places from the insertion point",
          ok and ok_ret, fi=bf.fi)
-  rets = H.returns_of(bi.node)
-  keyv = [s.targets[0].id for s in walk_no_nested(bi.node) if isinstance(s, ast.Assign) and
-          isinstance(s.value, ast.Call) and text(s.value.func) == "self._get_sort_key" and
-          isinstance(s.targets[0], ast.Name)]
-  ok = len(rets) == 1 and isinstance(rets[0].value, ast.Call) and bool(keyv)
+  rs = _returned(bi, bif)
+  ok = len(rs) == 1 and isinstance(rs[0][1], ast.Call)
   if ok:
-    c = rets[0].value
+    c = rs[0][1]
+    K = "self._get_sort_key()"
     ok = text(c.func) == ips[1] and len(c.args) == 2 and text(c.args[0]) == "self._row_ids" and \
-        text(c.args[1]) == "%s(%s, %s)" % (keyv[0], ips[2], ips[3]) and \
-        [(k.arg, text(k.value)) for k in c.keywords] == [("key", keyv[0])]
+        text(c.args[1]) == "%s(%s, %s)" % (K, ips[2], ips[3]) and \
+        [(k.arg, text(k.value)) for k in c.keywords] == [("key", K)]
   run.ob(R1, bi.qualname, "bisect_func(self._row_ids, key(search_row_id, search_values), key=key)",
          "the ordered row list is bisected with the probe built by the same sort key that "
          "orders the list", ok, fi=bi.fi)
   # --- RecordSet.__len__ is the length of the row list (rank desc uses len(self._rset))
   ln = w.fn("records.RecordSet.__len__")
-  rets = H.returns_of(ln.node)
+  rs = _returned(ln, H.Flow(ln))
   run.ob(R1, ln.qualname, "return len(self._row_ids)", "len(record set) is the number of rows "
-         "searched", len(rets) == 1 and text(rets[0].value) == "len(self._row_ids)", fi=ln.fi,
+         "searched", len(rs) == 1 and text(rs[0][1]) == "len(self._row_ids)", fi=ln.fi,
          nontrivial=False)
   # --- FindOps methods
   fo = w.repo.cls("records.FindOps")
@@ -171,8 +195,8 @@ def r1_search_parameters(run, w):
              H.is_self_attr(s.targets[0]) and text(s.value) == init.fi.params()[1]]
   RS = "self." + _single(rs_attr, "FindOps.__init__: record set attribute")
 
-  def triple_of(fn, call):
-    """(bisect, shift, sentinel-or-row expr) of a _bisect_find call."""
+  def triple_of(call):
+    """(bisect, shift, row expr, values expr) of a _bisect_find call."""
     bb = H.bind_args(call, bf.fi)
     f = _bisect_name(mod, bb.get(p_func))
     sh = _const_int(bb.get(p_shift)) if bb.get(p_shift) is not None else None
@@ -183,11 +207,11 @@ def r1_search_parameters(run, w):
     if m is None:
       raise AnalysisError("FindOps.%s vanished" % name)
     fn = w.fn_of(m)
-    va = m.node.args.vararg.arg if m.node.args.vararg else None
-    rets = H.returns_of(m.node)
-    if len(rets) != 1 or not isinstance(rets[0].value, ast.Call) or va is None:
+    flow = H.Flow(fn)
+    va = fn.node.args.vararg.arg if fn.node.args.vararg else None
+    if va is None:
       raise AnalysisError("FindOps.%s: unrecognised shape" % name)
-    c = rets[0].value
+    case, c = _single_call_return(fn, flow, "FindOps.%s" % name)
     site = m.qualname
     if text(c.func) == RS + "._bisect_find":
       pass
@@ -198,13 +222,13 @@ def r1_search_parameters(run, w):
       if target is None:
         raise AnalysisError("FindOps.%s delegates to unknown %s" % (name, c.func.attr))
       tfn = w.fn_of(target)
-      tva = target.node.args.vararg.arg if target.node.args.vararg else None
+      tva = tfn.node.args.vararg.arg if tfn.node.args.vararg else None
       cc = [x for (n, x, nm) in tfn.calls() if nm == "self._bisect_find"]
-      c = _single(cc, "%s: _bisect_find call" % target.qualname)
+      c = _inl(H.Flow(tfn), _single(cc, "%s: _bisect_find call" % target.qualname))
       va = tva
     else:
       raise AnalysisError("FindOps.%s: unrecognised search call %s" % (name, short(c)))
-    f, sh, rowe, valse = triple_of(fn, c)
+    f, sh, rowe, valse = triple_of(c)
     sent = _sentinel_value(mod, rowe) if rowe is not None else None
     if f is None:
       raise AnalysisError("FindOps.%s: bisect function not recognised in %s" % (name, short(c)))
@@ -213,63 +237,64 @@ def r1_search_parameters(run, w):
     run.ob(R1, site, "%s: (%s, shift %s, row id %s)" % (name, f, sh, sent),
            "find.%s lands on the record a linear scan would pick: needs shift %d and the %s "
            "sentinel row id, with the probe values passed on" % (name, want[0], want[1]), ok,
-           fi=m, node=rets[0])
+           fi=m, node=case.stmt)
   for name in sorted(NEIGHBOUR_TABLE):
     m = fo.methods.get(name)
     if m is None:
       raise AnalysisError("FindOps.%s vanished" % name)
     fn = w.fn_of(m)
     flow = H.Flow(fn)
-    rets = H.returns_of(m.node)
-    if len(rets) != 1 or not isinstance(rets[0].value, ast.Call) or \
-        text(rets[0].value.func) != RS + "._bisect_find":
+    case, c = _single_call_return(fn, flow, "FindOps.%s" % name)
+    if text(c.func) != RS + "._bisect_find":
       raise AnalysisError("FindOps.%s: unrecognised shape" % name)
-    f, sh, rowe, valse = triple_of(fn, rets[0].value)
-    rs = flow.roots(rowe, flow.node_of(rowe)) if rowe is not None else []
-    own = bool(rs) and all(r.kind == "call" and text(r.node.func) == RS + "._to_local_row_id" and
-                           [text(a) for a in r.node.args] == [m.params()[1]] and not r.path
-                           for r in rs)
+    f, sh, rowe, valse = triple_of(c)
+    own = rowe is not None and text(rowe) == "%s._to_local_row_id(%s)" % (RS, m.params()[1])
     ok = (f, sh) in NEIGHBOUR_TABLE[name] and own and valse is None
     run.ob(R1, m.qualname, "%s: (%s, shift %s, probe = the row itself)" % (name, f, sh),
            "with the row's own key as probe, bisect_left gives its index and bisect_right the "
            "index after it; %s must land one place %s" % (name, "before" if name == "previous"
-                                                          else "after"), ok, fi=m, node=rets[0])
+                                                          else "after"), ok, fi=m, node=case.stmt)
   # rank
   m = fo.methods.get("rank")
   if m is None:
     raise AnalysisError("FindOps.rank vanished")
   fn = w.fn_of(m)
+  flow = H.Flow(fn)
   p_order = m.params()[2]
-  ic = [c for (n, c, nm) in fn.calls() if nm == RS + "._bisect_index"]
-  c = _single(ic, "FindOps.rank: _bisect_index call")
+  ics = [c for (n, c, nm) in fn.calls() if nm == RS + "._bisect_index"]
+  c = _inl(flow, _single(ics, "FindOps.rank: _bisect_index call"))
   bb = H.bind_args(c, bi.fi)
   f = _bisect_name(mod, bb.get(ips[1]))
-  idx = [s.targets[0].id for s in walk_no_nested(m.node) if isinstance(s, ast.Assign) and
-         s.value is c and isinstance(s.targets[0], ast.Name)]
-  if f is None or not idx or ips[3] in bb:
+  if f is None or ips[3] in bb or ips[2] not in bb or \
+      text(bb[ips[2]]) != "%s._to_local_row_id(%s)" % (RS, m.params()[1]):
     raise AnalysisError("FindOps.rank: unrecognised bisection %s" % short(c))
   lenexprs = ("len(%s)" % RS, "len(%s._row_ids)" % RS)
+  ctext = text(c)
   seen = {}
-  node = [s for s in m.node.body if isinstance(s, ast.If)]
-  node = node[0] if node else None
-  while node is not None:
-    t = node.test
-    if not (isinstance(t, ast.Compare) and isinstance(t.ops[0], ast.Eq) and
-            text(t.left) == p_order and isinstance(t.comparators[0], ast.Constant)):
-      raise AnalysisError("FindOps.rank: unrecognised order test %s" % short(t))
-    rr = [s for s in node.body if isinstance(s, ast.Return)]
-    if len(rr) == 1:
-      seen[t.comparators[0].value] = (rr[0], _linear(rr[0].value, idx[0], lenexprs))
-    node = node.orelse[0] if len(node.orelse) == 1 and isinstance(node.orelse[0], ast.If) else None
+  for (case, v) in _returned(fn, flow):
+    orders = []
+    for (t, p) in case.atoms:
+      t = _inl(flow, t)
+      if isinstance(t, ast.Compare) and len(t.ops) == 1 and p is True and \
+          isinstance(t.ops[0], ast.Eq):
+        pair = [t.left, t.comparators[0]]
+        consts = [x.value for x in pair if isinstance(x, ast.Constant)]
+        names = [x for x in pair if text(x) == p_order]
+        if len(consts) == 1 and len(names) == 1:
+          orders.append(consts[0])
+    if len(orders) != 1:
+      raise AnalysisError("FindOps.rank: cannot tell for which order %s is returned"
+                          % short(case.value))
+    seen[orders[0]] = (case.stmt, case.value, _linear(v, lambda e: text(e) == ctext, lenexprs))
   for order in ("asc", "desc"):
     got = seen.get(order)
     want = RANK_TABLE[(order, f)]
-    run.ob(R1, m.qualname, "rank %s with %s: %s" % (order, f, short(got[0].value) if got else "-"),
+    run.ob(R1, m.qualname, "rank %s with %s: %s" % (order, f, short(got[1]) if got else "-"),
            "1-based position counted from the %s of the ordered group" %
-           ("start" if order == "asc" else "end"), got is not None and got[1] == want,
-           witness="linear form %r, wanted %r" % (got[1] if got else None, want), fi=m,
+           ("start" if order == "asc" else "end"), got is not None and got[2] == want,
+           witness="linear form %r, wanted %r" % (got[2] if got else None, want), fi=m,
            node=got[0] if got else None)
-  dflt = m.node.args.defaults
+  dflt = fn.node.args.defaults
   run.ob(R1, m.qualname, "order defaults to \"asc\"", "RANK without `order` counts from the "
          "start", len(dflt) == 1 and isinstance(dflt[0], ast.Constant) and dflt[0].value == "asc",
          fi=m, nontrivial=False)
@@ -277,87 +302,127 @@ def r1_search_parameters(run, w):
 
 # --------------------------------------------------------------------------------------- R2
 
-def _bounds(test, idx, seq):
-  """(has lower bound index >= 0, has upper bound index < len(seq)) established by `test`."""
-  atoms = []
-  def flat(t):
-    if isinstance(t, ast.BoolOp) and isinstance(t.op, ast.And):
-      for v in t.values:
-        flat(v)
-    elif isinstance(t, ast.Compare):
+_NEG_OP = {ast.Lt: ast.GtE, ast.GtE: ast.Lt, ast.Gt: ast.LtE, ast.LtE: ast.Gt}
+
+
+def _bounds(atoms, idx, seq):
+  """(has lower bound index >= 0, has upper bound index < len(seq)) established by the atoms
+  [(test, polarity)]; comparisons outside the recognised forms constrain nothing."""
+  comps = []
+  for (t, pol) in atoms:
+    if not isinstance(t, ast.Compare):
+      continue
+    if pol:
       left = t.left
       for op, right in zip(t.ops, t.comparators):
-        atoms.append((left, op, right))
+        comps.append((left, type(op), right))
         left = right
-    else:
-      raise AnalysisError("_at: guard %s is outside the recognised comparisons" % short(t))
-  flat(test)
+    elif len(t.ops) == 1 and type(t.ops[0]) in _NEG_OP:
+      comps.append((t.left, _NEG_OP[type(t.ops[0])], t.comparators[0]))
   lo = hi = False
   ln = "len(%s)" % seq
-  for (l, op, r) in atoms:
+  for (l, op, r) in comps:
     lt, rt = text(l), text(r)
     lc, rc = _const_int(l), _const_int(r)
     if lt == idx:
-      if (isinstance(op, ast.GtE) and rc is not None and rc >= 0) or \
-          (isinstance(op, ast.Gt) and rc is not None and rc >= -1):
+      if (op is ast.GtE and rc is not None and rc >= 0) or \
+          (op is ast.Gt and rc is not None and rc >= -1):
         lo = True
-      if isinstance(op, ast.Lt) and rt == ln:
+      if op is ast.Lt and rt == ln:
         hi = True
-      if isinstance(op, ast.LtE) and rt in (ln + " - 1",):
+      if op is ast.LtE and rt in (ln + " - 1",):
         hi = True
     if rt == idx:
-      if (isinstance(op, ast.LtE) and lc is not None and lc >= 0) or \
-          (isinstance(op, ast.Lt) and lc is not None and lc >= -1):
+      if (op is ast.LtE and lc is not None and lc >= 0) or \
+          (op is ast.Lt and lc is not None and lc >= -1):
         lo = True
-      if isinstance(op, ast.Gt) and lt == ln:
+      if op is ast.Gt and lt == ln:
         hi = True
-      if isinstance(op, ast.GtE) and lt in (ln + " - 1",):
+      if op is ast.GtE and lt in (ln + " - 1",):
         hi = True
   return lo, hi
+
+
+def _expr_atoms(fnode, expr):
+  """Atoms that hold when `expr` is evaluated: guards of its statement plus the tests of the
+  conditional expressions / comprehension filters it sits in."""
+  parents = {}
+  for n in ast.walk(fnode):
+    for ch in ast.iter_child_nodes(n):
+      parents[id(ch)] = n
+  atoms = []
+  cur = expr
+  stmt = None
+  while id(cur) in parents:
+    par = parents[id(cur)]
+    if isinstance(par, ast.IfExp):
+      if cur is par.body:
+        atoms += H.split_guard(par.test, True)
+      elif cur is par.orelse:
+        atoms += H.split_guard(par.test, False)
+    elif isinstance(par, ast.BoolOp) and isinstance(par.op, ast.And):
+      i = [k for k, v in enumerate(par.values) if v is cur][0]
+      for v in par.values[:i]:
+        atoms += H.split_guard(v, True)
+    elif isinstance(par, (ast.ListComp, ast.SetComp, ast.GeneratorExp, ast.DictComp)):
+      if not any(cur is g for g in par.generators):
+        for g in par.generators:
+          for t in g.ifs:
+            atoms += H.split_guard(t, True)
+    if isinstance(par, ast.stmt):
+      stmt = par
+      break
+    cur = par
+  if stmt is not None:
+    if isinstance(stmt, (ast.If, ast.While)) and cur is stmt.test:
+      atoms += H.guard_atoms(fnode, stmt)
+    else:
+      atoms += H.guard_atoms(fnode, stmt)
+  return atoms
 
 
 def r2_index_guard(run, w):
   R2 = run.rule("C14-R2", "RecordSet._at subscripts the row list only under 0 <= index < "
                 "len(rows); otherwise the empty record", floor=2)
   fn = w.fn("records.RecordSet._at")
+  flow = H.Flow(fn)
   idx = fn.fi.params()[1]
   subs = [s for s in ast.walk(fn.node) if isinstance(s, ast.Subscript) and
           text(s.slice) == idx and isinstance(s.ctx, ast.Load)]
   if not subs:
     raise AnalysisError("RecordSet._at: subscript by the index parameter not found")
-  parents = {}
-  for n in ast.walk(fn.node):
-    for ch in ast.iter_child_nodes(n):
-      parents[id(ch)] = n
+  if flow.du.defs.get(idx):
+    raise AnalysisError("RecordSet._at: the index parameter is reassigned")
   for s in subs:
-    seq = text(s.value)
-    lo = hi = False
-    other = None
-    cur = s
-    while id(cur) in parents:
-      par = parents[id(cur)]
-      if isinstance(par, ast.IfExp) and cur is par.body:
-        l2, h2 = _bounds(par.test, idx, seq)
-        lo, hi = lo or l2, hi or h2
-        other = par.orelse
-      elif isinstance(par, ast.If) and any(cur is x for x in par.body):
-        l2, h2 = _bounds(par.test, idx, seq)
-        lo, hi = lo or l2, hi or h2
-      cur = par
+    seq = _xname(fn, s.value)
+    lo, hi = _bounds(_expr_atoms(fn.node, s), idx, seq)
     run.ob(R2, fn.qualname, short(s), "the subscript is evaluated only when 0 <= %s (no "
            "negative wrap-around: find.lt/previous before the first row must not yield the last "
            "row)" % idx, lo, fi=fn.fi, node=s)
     run.ob(R2, fn.qualname, "%s < len(%s)" % (idx, seq), "the subscript is evaluated only when "
            "the index is inside the list (find.gt/next after the last row yields the empty "
            "record, not an error)", hi and seq == "self._row_ids", fi=fn.fi, node=s)
-    if other is not None:
-      run.ob(R2, fn.qualname, "else %s" % short(other), "out-of-range positions yield the empty "
-             "record (row id 0)", _const_int(other) == 0, fi=fn.fi, node=s, nontrivial=False)
-  rets = H.returns_of(fn.node)
-  ok = len(rets) == 1 and isinstance(rets[0].value, ast.Call) and \
-      text(rets[0].value.func) == "self._table.Record"
+  # what becomes of the position: a record of this table, row id 0 when out of range
+  ok = True
+  others = []
+  rcases = [c for c in H.return_cases(fn.node) if c.value is not None]
+  for case in rcases:
+    rn = [m.id for m in fn.cfg.nodes if m.stmt is case.stmt][0]
+    v = H.resolve(flow, case.value, rn)
+    if not (isinstance(v, ast.Call) and _xname(fn, v.func) == "self._table.Record" and v.args):
+      ok = False
+      continue
+    for vc in H.value_cases(fn, flow, v.args[0], flow.node_of(v)):
+      if any(vc.value is s for s in subs):
+        continue
+      others.append(vc.value)
   run.ob(R2, fn.qualname, "return self._table.Record(row_id, self._source_relation)",
-         "the position is turned into a record of this table", ok, fi=fn.fi, nontrivial=False)
+         "the position is turned into a record of this table", ok and bool(rcases), fi=fn.fi,
+         nontrivial=False)
+  if others:
+    run.ob(R2, fn.qualname, "else %s" % short(others[0]), "out-of-range positions yield the empty "
+           "record (row id 0)", all(_const_int(o) == 0 for o in others), fi=fn.fi,
+           nontrivial=False)
 
 
 # --------------------------------------------------------------------------------------- R3
@@ -366,63 +431,73 @@ def r3_find_eq(run, w):
   R3 = run.rule("C14-R3", "_find_eq returns the empty record when the found row's key is "
                 "strictly greater than the probe", floor=2)
   fn = w.fn("records.RecordSet._find_eq")
+  flow = H.Flow(fn)
   cfg = fn.cfg
   va = fn.node.args.vararg.arg if fn.node.args.vararg else None
-  found = [s for s in walk_no_nested(fn.node) if isinstance(s, ast.Assign) and
-           isinstance(s.value, ast.Call) and text(s.value.func) == "self._bisect_find" and
-           isinstance(s.targets[0], ast.Name)]
-  fd = _single(found, "_find_eq: _bisect_find result")
-  F = fd.targets[0].id
-  keyv = [s.targets[0].id for s in walk_no_nested(fn.node) if isinstance(s, ast.Assign) and
-          isinstance(s.value, ast.Call) and text(s.value.func) == "self._get_sort_key" and
-          isinstance(s.targets[0], ast.Name)]
+  found = [(n, c) for (n, c, nm) in fn.calls() if nm == "self._bisect_find"]
+  (fdn, fdc) = _single(found, "_find_eq: _bisect_find call")
+  K = "self._get_sort_key()"
+  ftext = text(_inl(flow, fdc))
+
+  def is_found(e):
+    """e denotes the record the bisection found."""
+    return text(_inl(flow, e)) == ftext
+
+  def strictness(t):
+    """True when test t says: the probe is strictly before the found row's key."""
+    t = _inl(flow, t)
+    if not (isinstance(t, ast.Compare) and len(t.ops) == 1):
+      return None
+    l, r = t.left, t.comparators[0]
+    def key_call(e, nargs):
+      return isinstance(e, ast.Call) and text(e.func) == K and len(e.args) == nargs and \
+          isinstance(e.args[0], ast.Attribute) and e.args[0].attr == "_row_id" and \
+          text(e.args[0].value) == ftext and (nargs == 1 or text(e.args[1]) == va)
+    if not (isinstance(l, ast.Call) and isinstance(r, ast.Call) and text(l.func) == K and
+            text(r.func) == K):
+      return None
+    if isinstance(t.ops[0], ast.Lt):
+      return key_call(l, 2) and key_call(r, 1)
+    if isinstance(t.ops[0], ast.Gt):
+      return key_call(l, 1) and key_call(r, 2)
+    return False
+
+  def is_empty_record(e):
+    e = _inl(flow, e)
+    return isinstance(e, ast.Call) and text(e.func) == "self._table.Record" and e.args and \
+        _const_int(e.args[0]) == 0
+
+  cases = [c for c in H.return_cases(fn.node) if c.value is not None]
   tests = []
-  flow = H.Flow(fn)
-
-  def resolve(e, nid):
-    """A local holding a key(...) call stands for that call."""
-    if isinstance(e, ast.Name):
-      rs = flow.roots(e, nid)
-      if len(rs) == 1 and rs[0].kind == "call" and not rs[0].path:
-        return rs[0].node
-    return e
-
   for n in cfg.nodes:
-    if n.kind == "if" and isinstance(n.stmt.test, ast.Compare) and len(n.stmt.test.ops) == 1:
-      t = n.stmt.test
-      l, r = resolve(t.left, n.id), resolve(t.comparators[0], n.id)
-      if not (keyv and isinstance(l, ast.Call) and isinstance(r, ast.Call) and
-              text(l.func) == keyv[0] == text(r.func)):
-        continue
-      probe = "%s(%s._row_id, %s)" % (keyv[0], F, va)
-      actual = "%s(%s._row_id)" % (keyv[0], F)
-      strict = (isinstance(t.ops[0], ast.Lt) and text(l) == probe and text(r) == actual) or \
-          (isinstance(t.ops[0], ast.Gt) and text(l) == actual and text(r) == probe)
-      rr = [s for s in n.stmt.body if isinstance(s, ast.Return)]
-      empty = len(rr) == 1 and isinstance(rr[0].value, ast.Call) and \
-          text(rr[0].value.func) == "self._table.Record" and rr[0].value.args and \
-          _const_int(rr[0].value.args[0]) == 0
-      tests.append((n, strict, empty))
-  good = {n.id for (n, strict, empty) in tests if strict and empty}
+    if n.kind == "if":
+      for (t, p) in H.split_guard(n.stmt.test, True):
+        st = strictness(t)
+        if st is not None:
+          tests.append((t, st))
+  # some return of the empty record happens exactly under the strictness test
+  good = False
+  for case in cases:
+    if is_empty_record(case.value) and any(p is True and strictness(t) for (t, p) in case.atoms):
+      good = True
   run.ob(R3, fn.qualname, "if key(found._row_id, %s) < key(found._row_id): return <empty record>"
          % va, "the row found by bisection is at-or-after the probe; it is an equal match only "
-         "if the probe is not strictly before it", bool(good),
-         witness="; ".join(short(n.stmt.test) for (n, s, e) in tests) or None, fi=fn.fi)
+         "if the probe is not strictly before it", good,
+         witness="; ".join(short(t) for (t, st) in tests) or None, fi=fn.fi)
   # every return of the found record passes the test (for a non-empty found record)
-  rets = [n for n in cfg.nodes if n.kind == "return" and isinstance(n.stmt.value, ast.Name) and
-          n.stmt.value.id == F]
-  guard = {n.id for n in cfg.nodes if n.kind == "if" and text(n.stmt.test) == F}
-  ok = bool(rets) and bool(good) and bool(guard)
-  if ok:
-    # paths reaching `return found` either skipped the `if found:` body (nothing found) or went
-    # through the strictness test
-    body_first = {m.id for g in guard for m in cfg.nodes
-                  if m.stmt is not None and cfg.nodes[g].stmt.body and
-                  m.stmt is cfg.nodes[g].stmt.body[0]}
-    via_body = cfg.reach(body_first, removed=good)
-    ok = all(r.id not in via_body for r in rets)
-  run.ob(R3, fn.qualname, "return %s only after the strictness test (or when nothing was found)"
-         % F, "no non-empty record is returned as an equal match without the test", ok,
+  def excluded(case):
+    """The atoms of the case rule out `found is non-empty and strictly after the probe`."""
+    for (t, p) in case.atoms:
+      if p is not False:
+        continue
+      parts = t.values if isinstance(t, ast.BoolOp) and isinstance(t.op, ast.And) else [t]
+      if parts and all(is_found(x) or strictness(x) for x in parts):
+        return True
+    return False
+  frets = [c for c in cases if is_found(c.value)]
+  ok = bool(frets) and good and all(excluded(c) for c in frets)
+  run.ob(R3, fn.qualname, "return found only after the strictness test (or when nothing was "
+         "found)", "no non-empty record is returned as an equal match without the test", ok,
          fi=fn.fi)
 
 
@@ -432,43 +507,50 @@ def r4_prevnext(run, w):
   R4 = run.rule("C14-R4", "PREVIOUS/NEXT/RANK call the matching FindOps method on the record's "
                 "own group ordered by order_by; `order` forwarded", floor=4)
   sl = w.fn("functions.prevnext._sorted_lookup")
+  fo = w.repo.cls("records.FindOps")
   for name in ("PREVIOUS", "NEXT", "RANK"):
     fn = w.fn("functions.prevnext." + name)
+    flow = H.Flow(fn)
     a = fn.node.args
     rec = a.args[0].arg if a.args else None
     kwonly = [x.arg for x in a.kwonlyargs]
-    rets = H.returns_of(fn.node)
-    if len(rets) != 1 or not isinstance(rets[0].value, ast.Call) or rec is None:
+    if rec is None:
       raise AnalysisError("%s: unrecognised shape" % fn.qualname)
-    c = rets[0].value
+    case, c = _single_call_return(fn, flow, fn.qualname)
     ok = isinstance(c.func, ast.Attribute) and c.func.attr == name.lower() and \
         isinstance(c.func.value, ast.Attribute) and c.func.value.attr in ("_find", "find") and \
         isinstance(c.func.value.value, ast.Call) and \
         dotted(c.func.value.value.func) == "_sorted_lookup"
-    if ok:
-      lc = c.func.value.value
-      ok = [text(x) for x in lc.args] == [rec] and \
-          sorted((k.arg, text(k.value)) for k in lc.keywords) == \
-          [("group_by", "group_by"), ("order_by", "order_by")] and \
-          {"group_by", "order_by"} <= set(kwonly) and [text(x) for x in c.args] == [rec]
-      extra = sorted((k.arg, text(k.value)) for k in c.keywords)
+    target = fo.methods.get(name.lower())
+    if ok and target is not None:
+      lb = H.bind_args(c.func.value.value, sl.fi, skip_self=False)
+      fb = H.bind_args(c, target)
+      tps = target.params()
+      ok = sorted((k, text(v)) for k, v in lb.items()) == \
+          [("group_by", "group_by"), ("order_by", "order_by"), (sl.fi.params()[0], rec)] and \
+          {"group_by", "order_by"} <= set(kwonly) and text(fb.get(tps[1])) == rec
+      extra = sorted((k, text(v)) for k, v in fb.items() if k != tps[1])
       want = [("order", "order")] if "order" in kwonly else []
       ok = ok and extra == want
+    else:
+      ok = False
     run.ob(R4, fn.qualname, short(c), "%s(rec, group_by, order_by) is find.%s(rec) on the "
            "lookup of rec's group ordered by order_by%s" %
            (name, name.lower(), ", with order passed on" if "order" in kwonly else ""), ok,
-           fi=fn.fi, node=rets[0])
+           fi=fn.fi, node=case.stmt)
   a = sl.node.args
   rec = a.args[0].arg
-  rets = H.returns_of(sl.node)
-  ok = len(rets) == 1 and isinstance(rets[0].value, ast.Call) and \
-      text(rets[0].value.func) == rec + "._table.lookup_records"
+  flow = H.Flow(sl)
+  rs = _returned(sl, flow)
+  ok = len(rs) == 1 and isinstance(rs[0][1], ast.Call) and \
+      text(rs[0][1].func) == rec + "._table.lookup_records"
   if ok:
-    c = rets[0].value
+    c = rs[0][1]
     kws = {k.arg: k.value for k in c.keywords}
     d = kws.get(None)
     ok = not c.args and set(kws) == {None, "order_by"} and text(kws["order_by"]) == "order_by" \
-        and isinstance(d, ast.DictComp) and text(d.generators[0].iter) == "group_by" and \
+        and isinstance(d, ast.DictComp) and len(d.generators) == 1 and \
+        text(d.generators[0].iter) == "group_by" and \
         text(d.key) == text(d.generators[0].target) and \
         text(d.value) == "getattr(%s, %s)" % (rec, text(d.key)) and not d.generators[0].ifs
   run.ob(R4, sl.qualname, "rec._table.lookup_records(**{c: getattr(rec, c) for c in group_by}, "
